@@ -40,6 +40,8 @@ func init() {
 			{Name: "revive-mut", Run: runReviveMut},
 			{Name: "revive-cyclic", Run: runReviveCyclic},
 			{Name: "revive-cyclic-child", Run: runReviveCyclicChild, Solo: true},
+			{Name: "stringify-growing", Run: runStringifyGrowing},
+			{Name: "stringify-growing-child", Run: runStringifyGrowingChild, Solo: true},
 			{Name: "stringify-mut", Run: runStringifyMut},
 			{Name: "special", Run: runSpecial},
 			{Name: "cycles", Run: runCycles},
